@@ -18,7 +18,7 @@ namespace ConcWM
 open NoKV NoKV.Conc NoKV.Conc.WM Driver
 
 structure DSt where
-  c : WMCfg := WMCfg.good
+  c : WMCfg := { countsFirst := true }   -- tracksZero / holdsAtDone default to the pre-patch shape
   s : St := initSt
   touched : List Nat := []      -- indices that were ever begun (for the spec flag)
   ignored : List Nat := []      -- one entry per Begin whose index was at or below the mark when it started
@@ -29,9 +29,11 @@ def setCfg (d : DSt) (kv : String) : Option DSt :=
   | [k, v] =>
     match k with
     | "wm.beginOrder" =>
-      if v == "publishThenCount" then some { d with c := ⟨false⟩ }
-      else if v == "countThenPublish" then some { d with c := ⟨true⟩ }
+      if v == "publishThenCount" then some { d with c := { d.c with countsFirst := false } }
+      else if v == "countThenPublish" then some { d with c := { d.c with countsFirst := true } }
       else none
+    | "wm.tracksZero" => do let b ← boolOfString? v; pure { d with c := { d.c with tracksZero := b } }
+    | "wm.holdsAtDone" => do let b ← boolOfString? v; pure { d with c := { d.c with holdsAtDone := b } }
     | "wm.advanceShape" => if v == "true" then some d else none
     | "wm.setDoneUntilCallers" => some d     -- SetDoneUntil is not part of the model; the call sites are pinned by the check
     | _ => if k.startsWith "wm." then none else some d
@@ -90,8 +92,8 @@ def step (d : DSt) (toks : List String) : DSt × String :=
   | ["wm.begin", i] =>
     match natOf? i with
     | some i =>
-      if i = 0 then (d, "bad-op") else
-      match WM.step d.c false d.s (.begin d.tmp i) with
+      -- index 0 is ignored by addIndex unless wm.tracksZero: Begin(0) is then a bare tryAdvance
+      match WM.step d.c false d.s (if i = 0 ∧ d.c.tracksZero = false then .adv d.tmp else .begin d.tmp i) with
       | some s1 =>
         let d := noteBegin d i
         let d' := touch { d with s := runToEnd d.c s1 d.tmp (fuelFor s1 i), tmp := d.tmp + 1 } i
@@ -101,7 +103,8 @@ def step (d : DSt) (toks : List String) : DSt × String :=
   | ["wm.done", i] =>
     match natOf? i with
     | some i =>
-      if i = 0 then (d, "bad-op") else
+      -- … and Done(0) does nothing at all (addIndex returns before tryAdvance)
+      if i = 0 ∧ d.c.tracksZero = false then (d, reply d "done") else
       match WM.step d.c false d.s (.done d.tmp i) with
       | some s1 =>
         let d' := { d with s := runToEnd d.c s1 d.tmp (fuelFor s1 i), tmp := d.tmp + 1 }
